@@ -104,6 +104,9 @@ class Ocp(Stage):
     def _transcribe(self,**kwargs):
         if not self.is_transcribed:
             self._transcribed_placeholders.clear()
+            # Discard leftovers of an earlier transcription held by the method objects
+            for phase in [0, 1, 2]:
+                self._untranscribe_recurse(phase=phase)
             self._transcribe_recurse(phase=0,**kwargs)
             self._placeholders_transcribe_recurse(1,self._transcribed_placeholders)
             self._transcribe_recurse(phase=1,**kwargs)
